@@ -35,6 +35,9 @@ type built struct {
 	prepOpen []*ref9p.Msg
 	preds    []*pred
 	byTag    map[uint16]*pred
+	// classes nego and malf: which frame ends the session and why (every pred
+	// from that frame on is marked dead)
+	deadWhy string
 }
 
 // pred is what the reference codec predicts for one frame of the stream.
@@ -46,7 +49,7 @@ type pred struct {
 	reply []byte
 	impl  bool // reaches the implementation
 	hold  bool
-	dead  bool // negotiation class: at or behind the frame that exceeds the negotiated msize
+	dead  bool // classes nego and malf: at or behind the frame that ends the session (above the negotiated msize / malformed)
 }
 
 func whoOf(m *ref9p.Msg) string {
@@ -219,6 +222,12 @@ func (b *built) mkFrame(c *Case, i int, f Frame) (*ref9p.Msg, error) {
 		m = &ref9p.Msg{Type: ref9p.Tcreate, Fid: fid, Name: letters(hx.Mix(c.Seed, uint64(i)), f.N), Perm: 0o644, Mode: uint8(i % 3)}
 	case "flush":
 		m = &ref9p.Msg{Type: ref9p.Tflush, Oldtag: flushOld}
+	case "wstat": // class malf only
+		walk(fid, fname)
+		m = &ref9p.Msg{Type: ref9p.Twstat, Fid: fid, Stat: wstatOf(hx.Mix(c.Seed, uint64(i)), f.N, c.Dotu)}
+		if f.N < 0 || len(ref9p.Encode(m, c.Dotu)) > int(c.Msize) {
+			return nil, fmt.Errorf("harness: Twstat with a name of %d bytes does not fit msize %d", f.N, c.Msize)
+		}
 	default:
 		return nil, fmt.Errorf("harness: unknown frame kind %q", f.Kind)
 	}
